@@ -86,4 +86,19 @@ TEXT = {
         "level_text": "the real socket-reader/framing code runs over a transport whose read boundaries, fd delivery and task interleaving the harness controls; the delivered history is compared with the sent one. " + SAN,
         "level_note": "single-threaded deterministic scheduler at existing suspension points; libc recvmsg path only under the ASan socketpair layer (thorough)",
     },
+    "C15": {"engine": "zb",
+        "technique": "history monitor (uniqueness + exact range) over real-thread storms, wrap-around reached through a cfg hook; TSan layer",
+        "level_text": "all serial numbers handed out in concurrent storms are recorded per thread and checked offline for zero, duplicates and exact coverage of the expected range including across the 32-bit wrap; contention actually achieved is measured",
+        "level_note": "needs the cfg(zbus_verif) counter setter; interleavings come from real threads, not enumerated",
+    },
+    "C16": {"engine": "zb",
+        "technique": "exhaustive bounded enumeration of client scripts against a reference SASL server model over a scripted transport",
+        "level_text": "the real server-side handshake runs against every short client script (and random long ones) under scripted read splits and partial writes; authentication verdict and every reply line are compared with an independent model of the SASL profile",
+        "level_note": "trusts vref::sasl (written from DESIGN.md A.6); soundness and conformance findings have separate signatures so one can never hide the other",
+    },
+    "C17": {"engine": "zb",
+        "technique": "exhaustive bounded enumeration of server scripts + leftover hand-off history monitor over a scripted transport",
+        "level_text": "the real client handshake runs against every short server script; success, fd capability (observed behaviourally) and delivery of messages/fds sent right behind the handshake are compared with the model",
+        "level_note": "kernel batching of trailing messages and fds is emulated by the scripted transport",
+    },
 }
